@@ -1,5 +1,6 @@
 import LC.Props.C13
 import LC.Props.C17
+import LC.Props.C13Uniq
 #print axioms LC.V1Glue.findAll_sound
 #print axioms LC.V1Glue.findAll_first
 #print axioms LC.V1Glue.exact_token_range
@@ -15,3 +16,10 @@ import LC.Props.C17
 #print axioms LC.V1Search.post_inv
 #print axioms LC.V1Search.post_ne
 #print axioms LC.V1Search.candidate_byte_range
+#print axioms LC.V1Glue.uniquifyGo_sublist
+#print axioms LC.V1Glue.uniquify_sublist
+#print axioms LC.V1Glue.uniquifyGo_keeps
+#print axioms LC.V1Glue.uniquify_keeps
+#print axioms LC.V1Glue.uniquifyGo_starts_apart
+#print axioms LC.V1Glue.uniquify_starts_apart
+#print axioms LC.V1Glue.uniquify_adjacent
